@@ -35,9 +35,10 @@ AllSigned == [n \in Names |-> IF IsCanonName(n) THEN V("gpg", "self", "P", "gpg"
 (* directly instead of first building and normalising a set of records.)                            *)
 InitMain ==
   \E tv \in 1..2, trk \in SUBSET Key, trt \in 1..MaxThr, nv \in 1..4, nrk \in SUBSET Key, nrt \in 1..MaxThr,
-     cs \in [Key -> RootSigStates], j \in [JunkNames -> {Absent, V("raw", "self", "P", "raw", TRUE)}] :
+     cs \in [Key -> RootSigStates], j \in [JunkNames -> {Absent, V("raw", "self", "P", "raw", TRUE)}],
+     al \in [AltNames -> {Absent, V("gpg", "self", "P", "gpg", TRUE)}] :        \* a valid signature by key 1 filed under another spelling of key 1
      case = [t |-> Doc("root", tv, trk, trt, TRUE, "ok", 0), n |-> Doc("root", nv, nrk, nrt, TRUE, "ok", 0),
-             sigs |-> [n \in Names |-> IF IsCanonName(n) THEN cs[KeyOf(n)] ELSE IF n \in AltNames THEN Absent ELSE j[n]]]
+             sigs |-> [n \in Names |-> IF IsCanonName(n) THEN cs[KeyOf(n)] ELSE IF n \in AltNames THEN al[n] ELSE j[n]]]
 (* declared types, missing root rule, malformed documents (same class on both sides when both are   *)
 (* malformed): everything else held at "fully signed successor"                                      *)
 InitSide ==
